@@ -85,10 +85,13 @@ def offset_family(rng, n, nb, fam, amp):
     return out
 
 
-def kick_case(cid, axis, n, it, nb, lb, off, data, parts=None):
-    lines = ["kick %s %s %d %d %d %d" % (cid, axis, n, it, nb, lb),
+def kick_case(cid, axis, n, it, nb, lb, off, data, parts=None, clamp=0, off0=None):
+    lines = ["kick %s %s %d %d %d %d %d" % (cid, axis, n, it, nb, lb, clamp),
              "off " + " ".join(f2h(x) for x in off),
              "data " + " ".join(f2h(x) for x in data)]
+    if off0:
+        # the map's past: a displacement field installed and applied before `off` (the model ignores it)
+        lines.append("off0 " + " ".join(f2h(x) for x in off0))
     if parts:
         lines.append("parts " + " ".join(f2h(x) for p in parts for x in p))
     lines.append("run")
